@@ -5,13 +5,23 @@ From Coq Require Import List Arith Bool Lia.
 From MV Require Import Base.Res Sect.Sections Sect.SectionsSpec Sect.SectionsProofs Gen.SectSrc.
 Import ListNotations.
 
+(* decide the (closed) comparisons of both sides, so that an equivalent rewording of the warning
+   condition in the source (flipped comparison, swapped operands) does not break the refinement *)
+Ltac bdestr :=
+  repeat match goal with
+         | |- context [?a <? ?b] => destruct (Nat.ltb_spec a b)
+         | |- context [?a <=? ?b] => destruct (Nat.leb_spec a b)
+         | |- context [?a =? ?b] => destruct (Nat.eqb_spec a b)
+         end;
+  cbn [andb orb negb]; first [reflexivity | exfalso; lia].
+
 Theorem update_section_level_state_src_eq s section level :
   update_section_level_state_src s section level = update_section_level_state s section level.
 Proof.
   unfold update_section_level_state_src, update_section_level_state.
   destruct (py_max _) as [pl|e]; cbn [bind]; [|reflexivity].
   destruct (dict_get (lvl s) pl) as [p|e]; cbn [bind]; [|reflexivity].
-  destruct ((pl <? level) && negb (pl + 1 =? level)); reflexivity.
+  bdestr.
 Qed.
 
 Theorem render_heading_src_eq tag s : render_heading_src tag s = render_heading tag s.
